@@ -541,3 +541,5 @@ def run(ctx: Context) -> None:
     ctx.isolate(r7_step_accounting)
     ctx.isolate(r8_decision_reaches_task)
     ctx.isolate(r9_schedule_installs_decision)
+    from . import c04
+    ctx.isolate(c04.r1_coindexed, rule="C03.R10")
